@@ -333,8 +333,9 @@ def emit_tables(thr, raw, bias):
     return "\n".join(L) + "\n"
 
 
-def generate(repo, outdir):
-    """Write Consts.v and HllTables.v into outdir if changed.  Returns list of changed files."""
+def generate(repo, outdir, write=True):
+    """Write the generated files into outdir if changed (write=False: only report what would change).
+    Returns (list of changed files, constants)."""
     C = extract_consts(repo)
     texts = {"Consts.v": emit_consts(C)}
     thr, raw, bias = load_tables(repo)
@@ -350,8 +351,9 @@ def generate(repo, outdir):
             with open(p) as f:
                 old = f.read()
         if old != txt:
-            with open(p, "w") as f:
-                f.write(txt)
+            if write:
+                with open(p, "w") as f:
+                    f.write(txt)
             changed.append(name)
     return changed, C
 
